@@ -359,6 +359,21 @@ func rulePeepMeasured(c *Ctx, r *R) {
 			}
 		}
 		for _, v := range ly.Views[k] {
+			sp := ly.spanned(v, jf)
+			for i, a := range v.Atoms {
+				if a.A.Seg == nil || !sp[i] || a.A.Seg.Kind != "call" {
+					continue
+				}
+				ck := k + " spanned " + a.Role
+				if seen[ck+v.shape()] {
+					continue
+				}
+				seen[ck+v.shape()] = true
+				r.check(a.A.Seg.Optimized, ck, pos, "a segment inside a jump's span is at its optimised length",
+					fmt.Sprintf("in the %s layout `%s` the %s segment lies inside a region an already computed jump spans but is not the result of c.optimize: the enclosing block's later optimisation shortens it and the jump over it lands late", v.Label, v.shape(), a.Role))
+			}
+		}
+		for _, v := range ly.Views[k] {
 			for _, a := range v.Atoms {
 				if a.A.Seg != nil {
 					for _, rule := range ly.m.ls(v.Path.St).rew[a.A.Seg.ID] {
@@ -403,43 +418,7 @@ func rulePeepGlue(c *Ctx, r *R) {
 		seen := map[string]bool{}
 		for _, v := range ly.Views[k] {
 			n := len(v.Atoms)
-			// spanned[i]: atom i lies between some jump and its landing boundary
-			spanned := make([]bool, n)
-			if v.AllSpanned {
-				for i := range spanned {
-					spanned[i] = true
-				}
-			}
-			for i, a := range v.Atoms {
-				if a.A.Seg != nil {
-					continue
-				}
-				f, ok := jf[a.Role]
-				if !ok || strings.HasPrefix(f, "?") {
-					continue
-				}
-				land, ok := ly.landing(v, i, f)
-				if !ok {
-					continue
-				}
-				b := -1
-				for j := 0; j <= n; j++ {
-					if v.Starts[j].String() == land.String() {
-						b = j
-						break
-					}
-				}
-				if b < 0 {
-					continue // reported by LAY-TARGET
-				}
-				lo, hi := i+1, b // atoms strictly after the jump up to the boundary
-				if b <= i {
-					lo, hi = b, i // backward jump: from the boundary up to the jump (exclusive)
-				}
-				for j := lo; j < hi && j < n; j++ {
-					spanned[j] = true
-				}
-			}
+			spanned := ly.spanned(v, jf)
 			// glue runs
 			for s := 0; s < n; {
 				if v.Atoms[s].A.Seg != nil {
@@ -504,4 +483,47 @@ func runString(run []layAtomInfo) string {
 		s = append(s, a.Role)
 	}
 	return strings.Join(s, ",")
+}
+
+// spanned[i]: atom i lies between some jump of the construct and its landing
+// boundary (for iteration layouts everything is spanned by the earlier chunks' jumps).
+func (ly *layouts) spanned(v *layView, jf map[string]string) []bool {
+	n := len(v.Atoms)
+	spanned := make([]bool, n)
+	if v.AllSpanned {
+		for i := range spanned {
+			spanned[i] = true
+		}
+	}
+	for i, a := range v.Atoms {
+		if a.A.Seg != nil {
+			continue
+		}
+		f, ok := jf[a.Role]
+		if !ok || strings.HasPrefix(f, "?") {
+			continue
+		}
+		land, ok := ly.landing(v, i, f)
+		if !ok {
+			continue
+		}
+		b := -1
+		for j := 0; j <= n; j++ {
+			if v.Starts[j].String() == land.String() {
+				b = j
+				break
+			}
+		}
+		if b < 0 {
+			continue // reported by LAY-TARGET
+		}
+		lo, hi := i+1, b
+		if b <= i {
+			lo, hi = b, i
+		}
+		for j := lo; j < hi && j < n; j++ {
+			spanned[j] = true
+		}
+	}
+	return spanned
 }
